@@ -5,7 +5,7 @@ from rules import common, c09
 
 CLAIMED = True
 TECHNIQUE = "static analysis over type-checked MIR: provenance of every update of the width counters (char_starts results / unit steps inside a lead-byte-filtered iteration, never byte lengths), normal form of the UTF-8 lead-byte predicate, writer-type composition table of Chunk::encode per (min,max,align) arm, must-follow of finish() after the chunk's encode, pad-before/after-content ordering in the two finish functions"
-LEVEL_TEXT = """Static decision of structural clauses: (A6) in the specification parser the fill character is stored without any test on its own value (so `<`, `>` and the syntax characters are legal fills), exactly when the following character is `<` or `>`, and `<`/`>` select left/right alignment; and of four writer clauses (the width law itself — cut position arithmetic, partial-write accounting, text arriving split inside a code point — is NOT claimed): (A1) every update of MaxWidthWriter.remaining, LeftAlignWriter.to_fill and RightAlignWriter.to_fill subtracts either a char_starts(..) result or 1 inside an iteration filtered by is_char_boundary — never a byte length; the cut index comes from the lead-byte-filtered enumerate, so the cut falls on a lead byte; (A2) is_char_boundary(b) is a recognised form of 'not a UTF-8 continuation byte'; char_starts counts exactly the bytes satisfying it; (A5) MaxWidthWriter::write swallows a buffer (returns Ok(buf.len()) without forwarding) only when the cut index computed by the lead-byte scan is 0; (A3) in Chunk::encode the writer per (min,max,align) arm is MaxWidthWriter alone, Left/RightAlignWriter alone, or Left/RightAlignWriter<MaxWidthWriter> (alignment outside, limit inside, so padding also passes the limit), with min feeding to_fill, max feeding remaining and params.fill feeding fill; (A4) on both alignment arms finish() follows the chunk's encode on every Ok path; RightAlignWriter::finish writes the fill before replaying the buffer, LeftAlignWriter::finish writes it after the content (the content has already been forwarded). (A6, cont.) the look-ahead deciding whether a character is a fill reads the character iterator, never a byte offset of the pattern; (A4, cont.) every non-error return of finish() has passed the head of the padding loop. (A10) in Parser::integer, followed with its flags, tuples and counters: after a digit was consumed Ok(None) is unreachable, and without one nothing else is."""
+LEVEL_TEXT = """Static decision of structural clauses: (A6) in the specification parser the fill character is stored without any test on its own value (so `<`, `>` and the syntax characters are legal fills), exactly when the following character is `<` or `>`, and `<`/`>` select left/right alignment; and of four writer clauses (the width law itself — cut position arithmetic, partial-write accounting, text arriving split inside a code point — is NOT claimed): (A1) every update of MaxWidthWriter.remaining, LeftAlignWriter.to_fill and RightAlignWriter.to_fill subtracts either a char_starts(..) result or 1 inside an iteration filtered by is_char_boundary — never a byte length; the cut index comes from the lead-byte-filtered enumerate, so the cut falls on a lead byte; (A2) is_char_boundary(b) is a recognised form of 'not a UTF-8 continuation byte'; char_starts counts exactly the bytes satisfying it; (A5) MaxWidthWriter::write swallows a buffer (returns Ok(buf.len()) without forwarding) only when the cut index computed by the lead-byte scan is 0; (A3) in Chunk::encode the writer per (min,max,align) arm is MaxWidthWriter alone, Left/RightAlignWriter alone, or Left/RightAlignWriter<MaxWidthWriter> (alignment outside, limit inside, so padding also passes the limit), with min feeding to_fill, max feeding remaining and params.fill feeding fill; (A4) on both alignment arms finish() follows the chunk's encode on every Ok path; RightAlignWriter::finish writes the fill before replaying the buffer, LeftAlignWriter::finish writes it after the content (the content has already been forwarded). (A6, cont.) the look-ahead deciding whether a character is a fill reads the character iterator, never a byte offset of the pattern; (A4, cont.) every non-error return of finish() has passed the head of the padding loop. (A10) in Parser::integer, followed with its flags, tuples and counters: after a digit was consumed Ok(None) is unreachable, and without one nothing else is. (A11) the only io::Write/encode::Write implementations in the pattern module are the three width writers; (A12) Parameters.min_width/max_width receive the number integer() returned with nothing applied, and the width writers receive those payloads as they are."""
 LEVEL_NOTE = "Trusted: rustc MIR/callee resolution; io::Write contract of the inner writer; UTF-8 encoding facts (continuation bytes are 0x80..=0xBF)."
 EXPLANATION = """Decided: A1 character counting, A2 boundary predicate, A3 truncate-inside/pad-outside composition, A4 padding happens and on the right side. Undecided: the exact cut position arithmetic, accounting under partial writes, text split inside a code point across write calls."""
 DECIDED = ["A1", "A2", "A3", "A4", "A5", "A6 fill/alignment grammar of the format specification", "A7 charged characters are the consumed ones", "A8/A9 nested groups keep their own layer and parameters (C09.T12/T13 re-evaluated)"]
@@ -183,6 +183,8 @@ def rule_width_presence(ctx, p, cfg, rid="A10"):
 def run_cfg(ctx, p, cfg):
     rule_spec_grammar(ctx, p, cfg, "A6")
     rule_width_presence(ctx, p, cfg, "A10")
+    rule_writer_adaptors(ctx, p, cfg, "A11")
+    rule_widths_as_parsed(ctx, p, cfg, "A12")
     rule_boundary_predicate(ctx, p, cfg, "A2")
 
     with ctx.rule("A1", "character counting", cfg) as r:
@@ -656,7 +658,45 @@ def writer_shape(w):
 
 
 def is_param_field(v, name):
-    return any(x[0] == "field" and x[2] == name for x in walk(v)) and any(x[0] == "as" and x[2] == "Some" for x in walk(v))
+    """the Some payload of params.<name>, as it is: no function applied to it on the way (a `NonZeroUsize::get`, a `min`, ..)"""
+    return any(x[0] == "field" and x[2] == name for x in walk(v)) and any(x[0] == "as" and x[2] == "Some" for x in walk(v)) and not any(x[0] == "call" for x in walk(deep_strip(v)))
+
+
+PATTERN_WRITERS = ("MaxWidthWriter", "LeftAlignWriter", "RightAlignWriter")
+
+
+def rule_writer_adaptors(ctx, p, cfg, rid="A11"):
+    """Between a formatter's text and the destination sit exactly the three width writers.  They rely on one another's
+    contract - every buffer handed on starts at a character boundary, counts are characters - so another `io::Write` adaptor
+    in the pattern module (a staging buffer that forwards fixed-size blocks, say) changes what they are handed."""
+    with ctx.rule(rid, "no other writer adaptor in the pattern module", cfg) as r:
+        ws = sorted({str(i.get("self_ty")) for i in p.impls if i.get("trait") in ("std::io::Write", "encode::Write") and str(i.get("self_ty")).startswith("encode::pattern::")})
+        names = [w.split("::")[-1].split("<")[0] for w in ws]
+        r.floor("width-writers", len([n for n in names if n in PATTERN_WRITERS]), 3)
+        extra = [w for w, n in zip(ws, names) if n not in PATTERN_WRITERS]
+        r.require(not extra, "only-the-width-writers", detail="io::Write / encode::Write implementations in encode::pattern: %s" % names,
+                  fail_detail="%s implements a writer in the pattern module: text no longer reaches the width writers in the pieces the formatter produced, and their character accounting assumes it does" % extra)
+
+
+def rule_widths_as_parsed(ctx, p, cfg, rid="A12"):
+    """The widths a specification states are the widths stored: `Parameters.min_width` / `max_width` receive the number
+    `integer()` returned, whatever it is - 0 included - with nothing applied to it."""
+    with ctx.rule(rid, "widths are stored as parsed", cfg) as r:
+        f = p.fn(PARAMS_FN)
+        n = 0
+        for b, i, s in f.assigns():
+            hit = [e.get("f") for e in s["lhs"]["p"] if isinstance(e, dict) and e.get("adt") == PARAMS_ADT]
+            if not hit or hit[0] not in ("min_width", "max_width"):
+                continue
+            v = deep_strip(f._rvalue(s["rv"], frozenset(), 20, b))
+            if v[0] == "agg" and v[2] == "None":
+                continue
+            n += 1
+            calls = [x[1] for x in walk(v) if x[0] == "call" and x[1] != INTEGER_FN and not x[1].endswith("Try::branch")]
+            from_int = any(x[0] == "call" and x[1] == INTEGER_FN for x in walk(v))
+            r.require(from_int and not calls and not any(x[0] == "bin" for x in walk(v)), "stored-as-parsed:%s#%d" % (hit[0], n), fn=f, detail="%s := %s" % (hit[0], show(v, 5)),
+                      fail_detail="Parameters.%s is not the number integer() returned but %s: some written widths (0, for one) are stored as something else" % (hit[0], show(v, 6)))
+        r.floor("width-stores", n, 2)
 
 
 def arm_key(f, block):
